@@ -21,7 +21,7 @@ ASSUMPTIONS = ["covering bands: rectangles 1e-6 rel (LP certificates), ellipsoid
                "Auer: a round is judged only if every first-stage membership is decisive"]
 N = {"quick": 190, "thorough": 6000}
 VARS = ["PaVeBa", "PaVeBaGP-IH", "PaVeBaGP-DE", "PartialGP-rect", "PartialGP-ell", "VOGP", "EpsilonPAL", "Auer", "Auer-emp", "Auer-emp", "VOGP"]
-REQUIRE = {"quick": {"must_admit": 300, "must_hold": 1500, "must_useful": 50, "must_not_useful": 50, "auer_held_back": 5, "auer_blocked_only_by_per_objective_sum": 10, "runs": 150, "vogp_ad_runs": 10,
+REQUIRE = {"quick": {"must_admit": 300, "must_hold": 1500, "must_useful": 50, "must_not_useful": 50, "auer_held_back": 5, "many_design_runs": 6, "auer_blocked_only_by_per_objective_sum": 10, "runs": 150, "vogp_ad_runs": 10,
                      **{f"must_admit::{v}": 8 for v in set(VARS)}, **{f"must_hold::{v}": 20 for v in set(VARS)}}}
 TIMEOUT = {"quick": 1500, "thorough": 7200}
 
@@ -33,6 +33,9 @@ def make(rng, variant):
         over["contraction"] = float(rng.choice([4, 16, 64]))
     if runs.VARIANTS[variant]["shape"] == "ell":
         over["K"] = min(over["K"], 6)
+    elif rng.random() < 0.12 and variant not in ("PaVeBa",):
+        over["K"] = int(rng.integers(12, 17))  # design indices with two digits, larger active sets
+        over["contraction"] = 32.0
     if variant == "Auer-emp":
         over["K"] = int(rng.integers(3, 11))
         over["ds_family"] = str(rng.choice(["chain", "tight", "random"]))
@@ -85,7 +88,26 @@ def directed_auer_emp(mon, rng):
             runchecks.check_admit(mon, tr, st)
 
 
+def directed_many_designs(mon, rng):
+    """13-16 designs on chain datasets (many heterogeneous cover relations, two-digit indices): exposes state shared between
+    index pairs (caches, aliasing) — seeded/C01e-pavebagp-cover-memo-key-collision"""
+    variant = str(rng.choice(["PaVeBaGP-IH", "PartialGP-rect", "VOGP", "EpsilonPAL"]))
+    case, order = runs.make_case(rng, variant, K=int(rng.integers(13, 17)), m=2, ds_family="chain", cone_families=["orthant", "theta"],
+                                 contraction=float(rng.choice([8, 32])), stub_mode=str(rng.choice(["random", "adversarial"])), batch=1)
+    case["max_rounds"] = 25
+    tr = runs.run_case(case, order, mon, max_extra_steps=0)
+    mon.count("runs")
+    mon.count("many_design_runs")
+    for st in tr.steps:
+        if st["crash"] is None:
+            runchecks.check_admit(mon, tr, st)
+            runchecks.check_useful(mon, tr, st)
+
+
 def shard(mon, tier, rng, shard_no, nshards):
+    if shard_no % 2 == 0 or tier == "thorough":
+        for _ in range(1 if tier == "quick" else 6):
+            directed_many_designs(mon, rng)
     for _ in range(1 if tier == "quick" else 6):
         ad_run(mon, rng)
     for _ in range(4 if tier == "quick" else 40):
